@@ -135,21 +135,33 @@ class Gen:
     """recursive typed generator; `sc` = (vars, focus): vars is a tuple of (name, kind, flavour) with
     kind 'item' | 'seq'; focus is None or the flavour of the context item"""
 
-    def __init__(self, draw, version='31', max_depth=3):
-        self.draw, self.v, self.max_depth = draw, version, max_depth
+    def __init__(self, draw, version='31', max_depth=3, reuse=False):
+        self.draw, self.v, self.max_depth, self.reuse = draw, version, max_depth, reuse
         self.nvar = 0
 
     def k(self, n=99):
         return self.draw(_upto(n))
 
     def fresh(self):
+        """a variable name; in reuse mode names come from a two-name pool, so that nested for/some/every/let
+        re-bind a name that is already bound (the outer binding must be back after the inner binder)"""
+        if self.reuse:
+            return _sf(self.draw, ['x', 'x', 'y'])
         self.nvar += 1
         return 'v%d' % self.nvar
+
+    @staticmethod
+    def visible(vars_):
+        """the innermost binding of every name: [(name, kind, flavour)]"""
+        seen = {}
+        for nm, kind, fl in vars_:
+            seen[nm] = (nm, kind, fl)
+        return list(seen.values())
 
     # -- single items ---------------------------------------------------------
     def item(self, flavor, sc):
         vars_, focus = sc
-        cands = [['var', nm] for nm, kind, fl in vars_ if kind == 'item' and fl in _SUB[flavor]]
+        cands = [['var', nm] for nm, kind, fl in self.visible(vars_) if kind == 'item' and fl in _SUB[flavor]]
         if focus is not None and focus in _SUB[flavor]:
             cands.append(['ctx'])
             cands.append(['ctx'])
@@ -232,7 +244,7 @@ class Gen:
         vars_, focus = sc
         k = self.k()
         if d >= self.max_depth or k < 22:
-            cands = [['var', nm] for nm, kind, fl in vars_ if fl in _SUB[flavor]]
+            cands = [['var', nm] for nm, kind, fl in self.visible(vars_) if fl in _SUB[flavor]]
             if focus is not None and focus in _SUB[flavor]:
                 cands.append(['ctx'])
             if focus is not None and flavor in 'inm':
@@ -241,7 +253,11 @@ class Gen:
                 return _sf(self.draw, cands)
             return lit_seq(self.draw, flavor)
         if k < 30:
-            return ['seq', self.seq(flavor, d + 1, sc), self.seq(flavor, d + 1, sc)]
+            first = self.seq(flavor, d + 1, sc)
+            outer = [['var', nm] for nm, kind, fl in self.visible(vars_) if fl in _SUB[flavor]]
+            if self.reuse and outer and self.k() < 60:
+                return ['seq', first, _sf(self.draw, outer)]        # the outer variable read AFTER an inner binder
+            return ['seq', first, self.seq(flavor, d + 1, sc)]
         if k < 42:      # for
             b, sc2 = self.binds(d, sc)
             return ['for', b, self.seq(flavor, d + 1, sc2)]
@@ -319,7 +335,7 @@ TOP = ((), None)
 
 @st.composite
 def nested_program(draw, version='31', max_depth=3):
-    g = Gen(draw, version, max_depth)
+    g = Gen(draw, version, max_depth, reuse=draw(_upto(9)) < 4)
     k = draw(_upto(99))
     if k < 70:
         return g.seq(_sf(draw, 'iiinnsmu'), 0, TOP)
@@ -373,6 +389,28 @@ def direct_calls(draw, version):
         ['filter', S, ['or', ['vcmp', 'eq', c('count', inner), ['pos']], ['vcmp', 'eq', ['pos'], ['last']]]],
         ['filter', S, ['seq', ['filter', c('count', inner), ['bool', False]], ['pos']]],
     ]
+    # same-name shadowing: the outer $x / $y must be visible again after an inner binder of the same name
+    X, Y = ['var', 'x'], ['var', 'y']
+    inS = lambda v: c('exists', c('index-of', S, v))      # noqa: E731  true for every item of S except NaN
+    body_c = ['and', ['some', [['x', T]], c('exists', X)], inS(X)]
+    q1, q2 = _sf(draw, ['some', 'every']), _sf(draw, ['some', 'every'])
+    out += [
+        ['for', [['x', S]], ['seq', [q1, [['x', T]], c(_sf(draw, ['exists', 'empty']), X)], X]],
+        ['every', [['x', S]], body_c],
+        c('not', ['some', [['x', S]], c('not', body_c)]),
+        ['some', [['x', S]], ['and', ['every', [['x', T]], c('exists', X)], inS(X)]],
+        ['for', [['x', S], ['y', T]], ['if', [q2, [['y', S]], c('exists', c('index-of', X, Y))], Y, ['int', 0]]],
+        ['for', [['x', S]], ['seq', ['for', [['x', T]], c('count', X)], X]],
+        ['for', [['x', S]], ['seq', [q1, [['y', T], ['x', ['seq', Y, Y]]], ['bool', q1 == 'every']], X]],
+        ['for', [['x', S]], ['seq', X, ['filter', T, [q2, [['x', ['ctx']]], c('exists', X)]], X]],
+        [q1, [['x', S]], ['and', c('exists', ['for', [['x', T]], X]), inS(X)]],
+    ]
+    if version != '20':
+        out += [
+            ['let', [['x', S]], ['seq', c('count', ['for', [['x', T]], X]), X, [q1, [['x', T]], c('exists', X)], X]],
+            ['for', [['x', S]], ['seq', ['let', [['x', T]], c('count', X)], X]],
+            ['map', S, ['seq', ['for', [['x', ['ctx']]], ['seq', [q2, [['x', T]], c('empty', X)], X]], ['ctx']]],
+        ]
     # the outer focus must be back after an inner focus was abandoned early or while later arguments are evaluated
     out += [
         ['filter', S, ['and', ['or', c('exists', inner), c('empty', inner)], ['vcmp', _sf(draw, _CMP), ['pos'], ia]]],
